@@ -205,7 +205,7 @@ Proof.
   - (* RAddParts *)
     destruct (get s i) as [c|] eqn:Hg; [|discriminate]. destruct (get_some _ _ _ Hg) as (Hn & _).
     pose proof (gsinv_get _ _ _ G Hn) as [A B C].
-    destruct (slot_is c KParts SPicked && list_eqb ps (pend_parts c) && negb (is_niln ps)); [|discriminate].
+    destruct (slot_is c KParts SPicked && list_eqb ps (firstn (length ps) (pend_parts c)) && negb (is_niln ps)); [|discriminate].
     destruct v.
     + destruct (Nat.eqb (cep c) (eep (genv s)) && not_prep (genv s)); [|discriminate]. inv_some.
       apply (gsinv_put s i). exact G. constructor; simpl; auto; try discriminate;
@@ -1103,7 +1103,7 @@ Proof.
         apply (linv_put_same s i c'); auto. constructor; reflexivity.
   - (* RAddParts *)
     destruct (get s i) as [c|] eqn:Hg; [|discriminate]. destruct (get_some _ _ _ Hg) as (Hn & _).
-    destruct (slot_is c KParts SPicked && list_eqb ps (pend_parts c) && negb (is_niln ps)); [|discriminate].
+    destruct (slot_is c KParts SPicked && list_eqb ps (firstn (length ps) (pend_parts c)) && negb (is_niln ps)); [|discriminate].
     destruct v.
     + destruct (Nat.eqb (cep c) (eep (genv s)) && not_prep (genv s)) eqn:Gd; [|discriminate]. inv_some.
       apply andb_prop in Gd. destruct Gd as [_ Np].
